@@ -80,6 +80,12 @@ def run_case(args):
             return idx, ev
         for offer in case["offers"]:
             ev.append({"e": "Tls", "offer": offer, "res": t.tls(offer, sni=case["canon"]), "validation": False})
+        # host names are case-insensitive (RFC 4343) and the server_name extension is optional: the same client spelling the name
+        # in another case, or not naming the host at all, is the same validation request
+        canon = case["canon"]
+        mixed = "".join(c.upper() if i % 2 else c for i, c in enumerate(canon))
+        for sni in (canon.upper(), mixed, None):
+            ev.append({"e": "Tls", "offer": [tacdlib.ACME], "res": t.tls([tacdlib.ACME], sni=sni), "validation": False, "sni": sni or "absent"})
     finally:
         t.stop()
     return idx, ev
@@ -148,7 +154,7 @@ def run(ctx):
            "refused": sum(1 for e in hs if not e["res"]["completed"]), "key_type_digest_combinations": len(combos), "domains": len(doms),
            "exhaustive": False,
            "rule": "TLC enumerates every ALPN list over {acme-tls/1, h2, http/1.1, acme-tls/10, acme-tls/ (thorough: + acme-tls/1.1, ACME-TLS/1)} up to length 3 plus 'no extension' and checks the case split of the acceptor's callback; "
-                   "each shape is offered to real tacd instances (tcp and unix listeners; domain/extension by flag, file and standard input); key types x digests; "
+                   "each shape is offered to real tacd instances (server_name: the lower-case A-label; acme-tls/1 alone also with the name in upper and mixed case and without server_name) (tcp and unix listeners; domain/extension by flag, file and standard input); key types x digests; "
                    "random domains of 1..5 labels (ASCII, IDN given as U-label/A-label, mixed case) whose canonical A-label form is known by construction; names at the limits of the DNS (253 octets, 63-octet labels, IDNs of 300-450 UTF-8 octets) by flag, file and standard input; random digests "
                    "rendered in acmed's proof text; the negotiated protocol and the DER of the presented certificate are parsed by the harness and judged by Tacd.tla"}
     return {"coverage": cov, "assumptions": ["TLS and DER parsing (Python ssl, OpenSSL through vcrypto, a small DER walker for extensions) is trusted projection code",
